@@ -166,7 +166,8 @@ fn fail(kind: &'static str, detail: String) -> Outcome {
 /// Reference hull (Andrew's monotone chain): strictly convex, counter-clockwise
 /// in (x, y), collinear points dropped. Exact for `exact` inputs.
 fn ref_hull(pts: &[P], exact: bool) -> Vec<P> {
-    let mut v: Vec<P> = pts.to_vec();
+    // -0.0 -> +0.0 so that total_cmp agrees with ==
+    let mut v: Vec<P> = pts.iter().map(|p| (p.0 + 0.0, p.1 + 0.0)).collect();
     v.sort_by(|a, b| a.0.total_cmp(&b.0).then(a.1.total_cmp(&b.1)));
     v.dedup();
     if v.len() < 3 {
@@ -848,7 +849,7 @@ fn run_case(rep: &mut Report, algo: Algo, pts: &[P], eps: f32, class: &str, orig
             // Shrinking is the expensive part: keep a few witnesses per
             // (algorithm, kind) and only count the rest.
             let key = format!("reported:{}:{}", algo.name(), f.kind);
-            if do_shrink && *rep.counters.get(&key).unwrap_or(&0) >= 4 {
+            if do_shrink && *rep.counters.get(&key).unwrap_or(&0) >= 2 {
                 rep.suppressed_violations += 1;
                 return;
             }
